@@ -35,6 +35,14 @@ package session
 //@ smt (assert (forall ((x Int)) (! (= (unboxStr x) (unboxS x)) :pattern ((unboxStr x)))))
 //@ macro sidSet(c) = locHas[c][sidKey()]
 //@ macro sidStr(c) = unboxStr(locVal[c][sidKey()])
+// The id under which the session of request c is looked up (getSession): the request-id local when it holds a string,
+// else the id the request presents (getSessionID: cookie first, then the configured source).
+// sidIsStr: the local holds a value of dynamic type `string`. The contract language has no name for a basic type
+// (typeis resolves names in package scopes only); typeis(x, fiber.figletFiberText) reads "x has the type of the
+// package variable fiber.figletFiberText", which is `string` - the only package-level object of that type in scope.
+//@ macro sidIsStr(c) = typeis(locVal[c][sidKey()], fiber.figletFiberText)
+//@ macro presented(s, c) = ite(reqCookie(c, s.sessionName, epoch) != "", reqCookie(c, s.sessionName, epoch), ite(s.source == SourceHeader, hdrPeek(reqJar(c), s.sessionName, epoch), ite(s.source == SourceURLQuery, reqQuery(c, s.sessionName, epoch), "")))
+//@ macro reqSid(s, c) = ite(sidSet(c) && sidIsStr(c), sidStr(c), presented(s, c))
 // only the entry `key` of context c may differ
 //@ macro localsKeptBut(c, key) = forallI(o, forallI(k, o != c || k != key ==> locHas[o][k] == old(locHas[o][k]) && locVal[o][k] == old(locVal[o][k])))
 
